@@ -241,7 +241,7 @@ verif_harness! {
     bytes: 33 + 272,
     unwind: 275,
     stubs: [(crate::belt_block_raw, stub_raw2)],
-    prop: |inp| { conf_fixed::<272>(inp, false) }
+    prop: |inp| { conf_fixed::<17, 272>(inp, false) }
 }
 //@ harness name=wblock_conf_dec272 prop=C18,C20 tier=quick bits=2432 stub=1 est=200 desc="W: belt_wblock_dec == oracle at len = 272 (17 blocks, 34 rounds), all keys, all contents; belt-block uninterpreted"
 verif_harness! {
@@ -249,7 +249,7 @@ verif_harness! {
     bytes: 33 + 272,
     unwind: 275,
     stubs: [(crate::belt_block_raw, stub_raw2)],
-    prop: |inp| { conf_fixed::<272>(inp, true) }
+    prop: |inp| { conf_fixed::<17, 272>(inp, true) }
 }
 //@ harness name=wblock_inv_ed272 prop=C18,C01,C20 tier=quick bits=2432 stub=1 est=200 desc="W: dec(enc(x)) == x at len = 272, all keys, all contents; belt-block an arbitrary function"
 verif_harness! {
@@ -270,21 +270,27 @@ pub fn stub_raw2(x: [u32; 4], key: &[u32; 8]) -> [u32; 4] {
     let v = uf_e2::call((x[0] as u128) | ((x[1] as u128) << 32) | ((x[2] as u128) << 64) | ((x[3] as u128) << 96));
     [v as u32, (v >> 32) as u32, (v >> 64) as u32, (v >> 96) as u32]
 }
-fn oe2(b: &[u8; 16]) -> [u8; 16] {
-    uf_e2::call(u128::from_le_bytes(*b)).to_le_bytes()
-}
-/// inp = key (32) | unused (1) | data (L); the length is the constant L.
-fn conf_fixed<const L: usize>(inp: &[u8], dec: bool) -> Option<bool> {
+/// inp = key (32) | unused (1) | data (L = 16 N); the length is the constant L.  The oracle runs on the explicit list
+/// r_1..r_N of 128-bit words (small arrays stay scalar in the symbolic execution).
+fn conf_fixed<const N: usize, const L: usize>(inp: &[u8], dec: bool) -> Option<bool> {
     let key = key_of(inp);
     let data: [u8; L] = take(inp, 33);
     let mut buf = data;
     let res = if dec { belt_wblock_dec(&mut buf, &key) } else { belt_wblock_enc(&mut buf, &key) };
     vcheck!(res.is_ok());
-    let e = if dec { r::wblock_dec_with(&data, L, oe2) } else { r::wblock_enc_with(&data, L, oe2) };
-    match e {
-        Some(e) => Some(buf == e),
-        None => Some(false),
+    let mut w = [0u128; N];
+    let mut i = 0;
+    while i < N {
+        w[i] = take_u128(&data, 16 * i);
+        i += 1;
     }
+    let e = if dec { r::wblock_dec_words(&w, uf_e2::call) } else { r::wblock_enc_words(&w, uf_e2::call) };
+    i = 0;
+    while i < N {
+        vcheck!(take_u128(&buf, 16 * i) == e[i]);
+        i += 1;
+    }
+    Some(true)
 }
 fn inverse_fixed<const L: usize>(inp: &[u8]) -> Option<bool> {
     let key = key_of(inp);
@@ -452,13 +458,42 @@ fn inverse_long<const L: usize>(inp: &[u8]) -> Option<bool> {
     Some(buf == data)
 }
 
+/// Whole number of blocks: the oracle on the explicit list r_1..r_N of 128-bit words (cheap to execute symbolically).
+fn conf_long_words<const N: usize, const L: usize>(inp: &[u8], dec: bool) -> Option<bool> {
+    let key = key_of(inp);
+    let data: [u8; L] = take(inp, 32);
+    ls_init(inp, 32 + L, 2 * N);
+    let mut buf = data;
+    let res = if dec { belt_wblock_dec(&mut buf, &key) } else { belt_wblock_enc(&mut buf, &key) };
+    vcheck!(res.is_ok());
+    ls_second(false, false);
+    let mut w = [0u128; N];
+    let mut i = 0;
+    while i < N {
+        w[i] = take_u128(&data, 16 * i);
+        i += 1;
+    }
+    #[cfg(kani)]
+    let f = |x: u128| ls::second(x);
+    #[cfg(not(kani))]
+    let f = |x: u128| conc_e(x);
+    let e = if dec { r::wblock_dec_words(&w, f) } else { r::wblock_enc_words(&w, f) };
+    vcheck!(ls_balanced());
+    i = 0;
+    while i < N {
+        vcheck!(take_u128(&buf, 16 * i) == e[i]);
+        i += 1;
+    }
+    Some(true)
+}
+
 //@ harness name=wblock_long_enc2048 prop=C18,C20 tier=thorough bits=49408 stub=1 est=1500 desc="W (lockstep): belt_wblock_enc == oracle at len = 2048 (128 blocks, 256 rounds: the round counter reaches 256 and needs its second octet), all keys, all contents; belt-block abstracted call by call (fresh result per call, equal arguments in both runs an obligation)"
 verif_harness! {
     name: wblock_long_enc2048,
     bytes: 32 + 2048 + 4096,
     unwind: 2060,
     stubs: [(crate::belt_block_raw, stub_raw_ls)],
-    prop: |inp| { conf_long::<2048>(inp, false) }
+    prop: |inp| { conf_long_words::<128, 2048>(inp, false) }
 }
 //@ harness name=wblock_long_dec2048 prop=C18,C20 tier=thorough bits=49408 stub=1 est=1500 desc="W (lockstep): belt_wblock_dec == oracle at len = 2048 (256 rounds), all keys, all contents"
 verif_harness! {
@@ -466,7 +501,7 @@ verif_harness! {
     bytes: 32 + 2048 + 4096,
     unwind: 2060,
     stubs: [(crate::belt_block_raw, stub_raw_ls)],
-    prop: |inp| { conf_long::<2048>(inp, true) }
+    prop: |inp| { conf_long_words::<128, 2048>(inp, true) }
 }
 //@ harness name=wblock_long_inv2048 prop=C18,C01,C20 tier=thorough bits=49408 stub=1 est=1500 desc="W (lockstep, reverse order): belt_wblock_dec(belt_wblock_enc(x)) == x at len = 2048, all keys, all contents"
 verif_harness! {
